@@ -351,6 +351,7 @@ type vWorld struct {
 
 	// symbolic clock (C20)
 	clocked  bool
+	badClock bool // Since was asked about an instant the clock never returned
 	now      int64
 	readings []int64
 	onCB     func(w *vWorld, r *vReg, ci CallbackInfo)
@@ -370,11 +371,16 @@ type vClock struct{ w *vWorld }
 func (c vClock) Now() time.Time {
 	k := len(c.w.readings)
 	c.w.readings = append(c.w.readings, c.w.now)
-	return time.Unix(0, int64(k))
+	return time.Unix(0, int64(k)+1)
 }
 
 func (c vClock) Since(t time.Time) time.Duration {
-	k := int(t.UnixNano())
+	k := t.UnixNano() - 1
+	if k < 0 || k >= int64(len(c.w.readings)) {
+		// an instant this clock never handed out (e.g. the zero Time)
+		c.w.badClock = true
+		return 0
+	}
 	return time.Duration(c.w.now - c.w.readings[k])
 }
 
